@@ -19,6 +19,7 @@ static BlockParameters build_bp(const ParamSpec& s) {
     case 4: h.query_response_hints = 0; break;
     case 5: h.query_response_hints = 0x3ffff & ~1u; break; // no time offsets
     case 6: h.query_response_hints = 0x15555 | 0x10; h.query_response_signature_hints = 0x0aaaa; h.rr_hints = 1; break;              // alternating members: neighbours in every map are split
+    case 8: h.other_data_hints = 1; break;   // malformed messages but no address events (kind 3 has the opposite: 2)
     case 7: h.query_response_hints = 0x2aaaa | 0x10; h.query_response_signature_hints = 0x15555; h.rr_hints = 2; break;
     }
     if (s.coll == 4) { sp.opcodes.clear(); sp.rr_types.clear(); }   // mandatory list members, present but empty
@@ -69,6 +70,7 @@ static Pools make_pools(uint64_t tps) {
     GenericAddressEventCount a0; a0.ae_type = AddressEventTypeValues::tcp_reset; a0.ip_address = ip4a; p.aec.push_back(a0);
     GenericAddressEventCount a1; a1.ae_type = AddressEventTypeValues::icmp_dest_unreachable; a1.ae_code = 3; a1.ae_transport_flags = (QueryResponseTransportFlagsMask)1; a1.ip_address = ip6; p.aec.push_back(a1);
     GenericAddressEventCount a2 = a0; a2.ae_code = 0; p.aec.push_back(a2);
+    GenericAddressEventCount a3 = a1; a3.ae_transport_flags = (QueryResponseTransportFlagsMask)2; p.aec.push_back(a3);   // differs from a1 in the transport flags only
     GenericMalformedMessage m0; m0.ts = T(1600000002, 5); m0.client_ip = ip4a; m0.client_port = 9; m0.server_ip = ip6; m0.server_port = 853; m0.mm_transport_flags = (QueryResponseTransportFlagsMask)5; m0.mm_payload = std::string("\xff\x00junk", 6); p.mm.push_back(m0);
     GenericMalformedMessage m1; m1.client_port = 7; p.mm.push_back(m1);
     GenericMalformedMessage m2; p.mm.push_back(m2);                                               // no field: not storable
